@@ -243,6 +243,36 @@ def _sentinel_import(ns, run, J, free, path, argv, text_kw):
     return solver
 
 
+def concrete_numerics(I, trial, wellformed=True):
+    """a seeded concrete quota / target vector for shape I (fallback when symbolic quotas make an exploration explode)"""
+    import random as _random
+    rng = _random.Random((hash(str(I.shape_key())) & 0xffff) * 7 + trial)
+    plq = [rng.choice([0, 0, 1]) for _ in range(I.np)]
+    puq = [max(q, rng.choice([0, 1, 2, 3])) for q in plq]
+    if I.na == 3:
+        llq = [rng.choice([0, 0, 1]) for _ in range(I.nl)]
+        lt = [max(q, rng.choice([0, 1, 2])) for q in llq]
+        luq = [max(q, rng.choice([1, 2, 3])) for q in lt]
+    else:
+        llq, lt, luq = list(plq), list(puq), list(puq)
+    return (I.with_numerics(plq, puq, llq, lt, luq), [], [])
+
+
+def explore_or_degrade(make_engine, make_body, I, controls, trials=2):
+    """explore make_body(None) (symbolic quotas); if the exploration budget is exhausted - the code under test forks on
+    the symbolic quotas - explore make_body(concrete numerics) for a few seeded vectors instead and say so"""
+    E = make_engine()
+    try:
+        return E, E.explore(make_body(None))
+    except S.Inconclusive:
+        controls['degraded_to_concrete'] = controls.get('degraded_to_concrete', 0) + 1
+        paths = []
+        for t in range(trials):
+            E = make_engine()
+            paths += E.explore(make_body(concrete_numerics(I, t)))
+        return E, paths
+
+
 def x_of(run, point):
     """(s, p) -> z3 term of the matching variable at ``point`` (0 when the
     variable is not part of the problem: PuLP leaves its value None)."""
